@@ -170,9 +170,10 @@ def _worker(task):
         try:
             if E.cands:
                 seen = set()
+                confirmed_clauses = set()
                 for name, snap in E.cands:
                     key = json.dumps(jsonable(snap), sort_keys=True)
-                    if key in seen:
+                    if key in seen or name in confirmed_clauses:
                         continue
                     seen.add(key)
                     try:
@@ -202,6 +203,7 @@ def _worker(task):
                             cls = unit.classify(cfg, snap, failures, cout)
                         except Exception:
                             cls = None
+                    confirmed_clauses.add(name)
                     st["violations"].append({"unit": unit.name, "cfg": cfg, "clause": name, "failures": failures,
                                              "snapshot": jsonable(snap), "outcome": jsonable(cout), "class": cls,
                                              "reproduces_in_native_float_arithmetic": native})
@@ -349,6 +351,9 @@ def run_property(modname, prop, tier, seed, nproc=None, budget_s=None):
             "crashes": crashes, "wall": time.time() - t0, "nonlinear": nonlinear, "ntasks": len(results)}
 
 
+LEVELS = {"C09": "other", "C10": "other"}
+
+
 def _uidx(units, name):
     for i, u in enumerate(units):
         if u.name == name:
@@ -368,15 +373,19 @@ def finish(prop, tier, seed, R, level_note=""):
             matched.setdefault(v["class"], []).append(v)
         else:
             new.append(v)
-    os.makedirs(os.path.join(VERIF, "replay", prop), exist_ok=True)
-    os.makedirs(os.path.join(VERIF, "evidence"), exist_ok=True)
+    OUT = os.environ.get("VERIF_OUT", VERIF)     # scratch output directory when evaluating seeded changes
+    os.makedirs(os.path.join(OUT, "replay", prop), exist_ok=True)
+    os.makedirs(os.path.join(OUT, "evidence"), exist_ok=True)
+    for old in os.listdir(os.path.join(OUT, "replay", prop)):
+        if old.startswith(tier + "_"):
+            os.unlink(os.path.join(OUT, "replay", prop, old))
     lines = []
     # group new violations by (unit, class, clause-set) and write a replay file for the first of each group
     groups = {}
     for v in new:
         groups.setdefault((v["unit"], v["class"], tuple(sorted(set(v["failures"])))), []).append(v)
     for i, (gk, vs) in enumerate(sorted(groups.items(), key=lambda kv: repr(kv[0]))):
-        path = os.path.join(VERIF, "replay", prop, f"{tier}_{i}.json")
+        path = os.path.join(OUT, "replay", prop, f"{tier}_{i}.json")
         v = vs[0]
         json.dump({"property": prop, "unit": v["unit"], "cfg": v["cfg"], "snapshot": v["snapshot"], "failures": v["failures"],
                    "class": v["class"], "outcome": v["outcome"], "similar_paths": len(vs),
@@ -405,7 +414,7 @@ def finish(prop, tier, seed, R, level_note=""):
         samples.append({"violating_input": v["snapshot"], "unit": v["unit"], "cfg": v["cfg"], "failures": v["failures"],
                         "class": v["class"]})
     ev = {
-        "property_id": prop, "tier": tier, "seed": seed, "level": "model_checking",
+        "property_id": prop, "tier": tier, "seed": seed, "level": LEVELS.get(prop, "model_checking"),
         "coverage": {
             "states": tot["paths"], "transitions": tot["queries"],
             "traces_validated_against_impl": tot["witness_ok"] + len(R["violations"]),
@@ -436,7 +445,7 @@ def finish(prop, tier, seed, R, level_note=""):
         "wall_s": round(R["wall"], 2),
         "violations": len(new),
     }
-    json.dump(ev, open(os.path.join(VERIF, "evidence", f"{prop}.json"), "w"), indent=1, default=jsonable)
+    json.dump(ev, open(os.path.join(OUT, "evidence", f"{prop}.json"), "w"), indent=1, default=jsonable)
     for l in lines:
         print(l)
     print(f"[{prop} {tier}] paths={tot['paths']} nontrivial={tot['nontrivial']} queries={tot['queries']} "
